@@ -21,7 +21,8 @@ type decision struct {
 	n     int     // number of alternatives (branch: 2; sched/select: n; value: unknown=-1)
 	cur   int     // chosen alternative index (branch/sched)
 	vals  []int64 // value decisions: values tried so far (last = current)
-	uvals []uint64
+	forced  bool  // received from another worker: never backtracked
+	donated bool  // remaining alternatives were handed to other workers
 }
 
 type pathResult struct {
@@ -114,6 +115,11 @@ type Engine struct {
 	di        int
 	live      bool
 	stop      bool
+	foreignLen int
+	assertFrom int
+	firstRun  bool
+	pool      *pool
+	entryIdx  int
 
 	// per-path state
 	globals   map[*ssa.Global]*Value
@@ -179,21 +185,57 @@ func (e *Engine) noteFork(kind string) {
 	e.stats.Forks[kind]++
 }
 
+// replay modes of a decision point
+const (
+	modeNew     = iota // beyond the recorded trail: create a decision
+	modeOwn            // replaying our own prefix: solver already holds it
+	modeForeign        // replaying a prefix received from another worker: assert, do not check
+	modeAdvance        // the pending decision: take its next alternative
+)
+
+func (e *Engine) mode() int {
+	if e.di < e.foreignLen && e.firstRun {
+		return modeForeign
+	}
+	if e.di < e.replayLen {
+		return modeOwn
+	}
+	if e.di < len(e.trail) {
+		return modeAdvance
+	}
+	return modeNew
+}
+
+func (e *Engine) snapshotPrefix(n int) []*decision {
+	out := make([]*decision, 0, n+1)
+	for i := 0; i < n; i++ {
+		d := e.trail[i]
+		c := &decision{kind: d.kind, n: d.n, cur: d.cur, forced: true}
+		if d.kind == "value" {
+			c.vals = []int64{d.vals[len(d.vals)-1]}
+		}
+		out = append(out, c)
+	}
+	return out
+}
+
 // decideN makes an unconstrained n-way decision.
 func (e *Engine) decideN(kind string, n int) int {
 	if n <= 1 {
 		return 0
 	}
-	if e.di < e.replayLen {
+	switch e.mode() {
+	case modeOwn, modeForeign:
 		d := e.trail[e.di]
 		if d.kind != kind || d.n != n {
 			panic(engineErr("nondeterministic replay: decision %d is %s/%d, recorded %s/%d", e.di, kind, n, d.kind, d.n))
 		}
+		if e.mode() == modeForeign {
+			e.solver.Push()
+		}
 		e.di++
 		return d.cur
-	}
-	if e.di < len(e.trail) {
-		// advance the pending decision
+	case modeAdvance:
 		d := e.trail[e.di]
 		if d.kind != kind || d.n != n {
 			panic(engineErr("nondeterministic replay (advance): decision %d is %s/%d, recorded %s/%d", e.di, kind, n, d.kind, d.n))
@@ -210,6 +252,14 @@ func (e *Engine) decideN(kind string, n int) int {
 	}
 	d := &decision{kind: kind, n: n, cur: 0}
 	e.trail = append(e.trail, d)
+	if e.pool != nil && e.pool.wantWork(e.di) {
+		for j := 1; j < n; j++ {
+			pre := e.snapshotPrefix(e.di)
+			pre = append(pre, &decision{kind: kind, n: n, cur: j, forced: true})
+			e.pool.put(&task{entry: e.entryIdx, prefix: pre})
+		}
+		d.donated = true
+	}
 	e.solver.Push()
 	e.di++
 	e.noteFork(kind)
@@ -231,22 +281,26 @@ func (e *Engine) branch(c Value) bool {
 }
 
 func (e *Engine) decideBranch(c *Term) bool {
-	if e.di < e.replayLen {
+	alts := [2]*Term{c, e.ts.Not(c)}
+	switch e.mode() {
+	case modeOwn, modeForeign:
 		d := e.trail[e.di]
 		if d.kind != "branch" {
 			panic(engineErr("nondeterministic replay: decision %d is branch, recorded %s", e.di, d.kind))
 		}
+		if e.mode() == modeForeign {
+			e.solver.Push()
+			e.solver.Assert(alts[d.cur])
+		}
 		e.di++
 		return d.cur == 0
-	}
-	alts := [2]*Term{c, e.ts.Not(c)}
-	if e.di < len(e.trail) {
+	case modeAdvance:
 		d := e.trail[e.di]
 		if d.kind != "branch" {
 			panic(engineErr("nondeterministic replay (advance): decision %d is branch, recorded %s", e.di, d.kind))
 		}
 		e.live = true
-		if d.cur == 0 && !d.onlyFirst() {
+		if d.cur == 0 && d.n == 2 {
 			// the false side was found feasible when the decision was created
 			d.cur = 1
 			e.solver.Push()
@@ -274,6 +328,12 @@ func (e *Engine) decideBranch(c *Term) bool {
 			d.n = 1
 		}
 		e.trail = append(e.trail, d)
+		if d.n == 2 && e.pool != nil && e.pool.wantWork(e.di) {
+			pre := e.snapshotPrefix(e.di)
+			pre = append(pre, &decision{kind: "branch", n: 2, cur: 1, forced: true})
+			e.pool.put(&task{entry: e.entryIdx, prefix: pre})
+			d.donated = true
+		}
 		e.solver.Push()
 		e.solver.Assert(alts[0])
 		e.di++
@@ -288,8 +348,6 @@ func (e *Engine) decideBranch(c *Term) bool {
 	e.di++
 	return false
 }
-
-func (d *decision) onlyFirst() bool { return d.n == 1 }
 
 // check runs check-sat; unknown is treated as "maybe" (kept) for feasibility.
 func (e *Engine) check(why string) SatResult {
@@ -333,16 +391,22 @@ func (e *Engine) concretizeTerm(t *Term, what string) *big.Int {
 		}
 		return e.ts.IntBig(v)
 	}
-	if e.di < e.replayLen {
+	m := e.mode()
+	if m == modeOwn || (m == modeForeign && e.trail[e.di].forced) {
 		d := e.trail[e.di]
 		if d.kind != "value" {
 			panic(engineErr("nondeterministic replay: decision %d is value, recorded %s", e.di, d.kind))
 		}
+		v := big.NewInt(d.vals[len(d.vals)-1])
+		if m == modeForeign {
+			e.solver.Push()
+			e.solver.Assert(e.ts.Eq(t, mkConst(v)))
+		}
 		e.di++
-		return big.NewInt(d.vals[len(d.vals)-1])
+		return v
 	}
 	var d *decision
-	if e.di < len(e.trail) {
+	if m != modeNew {
 		d = e.trail[e.di]
 		if d.kind != "value" {
 			panic(engineErr("nondeterministic replay (advance): decision %d is value, recorded %s", e.di, d.kind))
@@ -387,6 +451,12 @@ func (e *Engine) concretizeTerm(t *Term, what string) *big.Int {
 	e.solver.Pop(1)
 	if more == Unsat {
 		d.n = len(d.vals)
+	} else if e.pool != nil && e.pool.wantWork(e.di) {
+		// hand the remaining values to another worker
+		pre := e.snapshotPrefix(e.di)
+		pre = append(pre, &decision{kind: "value", n: -1, vals: append([]int64(nil), d.vals...)})
+		e.pool.put(&task{entry: e.entryIdx, prefix: pre, owned: true})
+		d.donated = true
 	}
 	e.solver.Push()
 	e.solver.Assert(e.ts.Eq(t, mkConst(v)))
@@ -463,6 +533,9 @@ func (e *Engine) infeasiblePath(why string) {
 func (e *Engine) assertCond(cond Value, label string, knownID string, region Value) {
 	if !e.live {
 		return
+	}
+	if e.firstRun && e.di < e.assertFrom {
+		return // already discharged by the worker that handed this prefix over
 	}
 	_, isKnown := e.known[knownID]
 	if knownID != "" && !isKnown {
@@ -688,7 +761,7 @@ func (e *Engine) resetPath() {
 	e.result = nil
 	e.aborting = false
 	e.pathEnd = make(chan struct{}, 1)
-	e.live = e.replayLen >= len(e.trail)
+	e.live = e.firstRun || e.replayLen >= len(e.trail)
 }
 
 // runPath executes the harness once, following e.trail[:replayLen] and then
@@ -765,9 +838,9 @@ func (e *Engine) panicString(v Value) string {
 	return valString(v)
 }
 
-// backtrack prepares the next path; false when the tree is exhausted.
+// backtrack prepares the next path; false when the (sub)tree is exhausted.
 func (e *Engine) backtrack() bool {
-	for len(e.trail) > 0 {
+	for len(e.trail) > e.foreignLen {
 		d := e.trail[len(e.trail)-1]
 		exhausted := false
 		switch d.kind {
@@ -778,7 +851,7 @@ func (e *Engine) backtrack() bool {
 		default:
 			exhausted = d.cur >= d.n-1
 		}
-		if exhausted {
+		if exhausted || d.donated || d.forced {
 			e.trail = e.trail[:len(e.trail)-1]
 			continue
 		}
@@ -790,18 +863,31 @@ func (e *Engine) backtrack() bool {
 }
 
 // Explore runs the whole search for one entry.
-func (e *Engine) Explore() {
-	e.start = time.Now()
-	e.trail = nil
-	e.replayLen = 0
+func (e *Engine) ExploreTask(t *task) {
+	if e.start.IsZero() {
+		e.start = time.Now()
+	}
+	e.solver.PopTo(0)
+	e.trail = t.prefix
+	e.foreignLen = len(t.prefix)
+	e.assertFrom = len(t.prefix)
+	if t.owned {
+		e.foreignLen--
+	}
+	e.replayLen = e.foreignLen
+	e.firstRun = true
 	first := true
 	for {
 		if !first {
+			e.firstRun = false
 			if !e.backtrack() {
 				break
 			}
 		}
 		first = false
+		if e.pool != nil && e.pool.stopped() {
+			break
+		}
 		if !e.deadline.IsZero() && time.Now().After(e.deadline) {
 			e.noteInconclusive("time limit reached before the search finished")
 			break
@@ -848,9 +934,86 @@ func (e *Engine) Explore() {
 			fmt.Fprintf(os.Stderr, "  [%s] %d paths, trail %d, %.1fs\n", e.opts.Name, e.stats.Paths, len(e.trail), time.Since(e.start).Seconds())
 		}
 		if e.stop {
+			if e.pool != nil {
+				e.pool.stop()
+			}
 			break
 		}
 	}
+}
+
+// ---- work sharing between workers
+
+type task struct {
+	entry  int
+	prefix []*decision
+	owned  bool // the last prefix element is a value decision the receiver enumerates
+}
+
+type pool struct {
+	mu      sync.Mutex
+	cond    *sync.Cond
+	queue   []*task
+	workers int
+	idle    int
+	halt    bool
+	tasks   int
+}
+
+func newPool(workers int) *pool {
+	p := &pool{workers: workers}
+	p.cond = sync.NewCond(&p.mu)
+	return p
+}
+
+func (p *pool) wantWork(depth int) bool {
+	if depth > 48 {
+		return false
+	}
+	p.mu.Lock()
+	defer p.mu.Unlock()
+	return !p.halt && (p.idle > 0 || len(p.queue) < p.workers)
+}
+
+func (p *pool) put(t *task) {
+	p.mu.Lock()
+	p.queue = append(p.queue, t)
+	p.tasks++
+	p.mu.Unlock()
+	p.cond.Signal()
+}
+
+// get blocks until a task is available; nil when all work is done.
+func (p *pool) get() *task {
+	p.mu.Lock()
+	defer p.mu.Unlock()
+	p.idle++
+	for len(p.queue) == 0 {
+		if p.idle == p.workers || p.halt {
+			p.cond.Broadcast()
+			return nil
+		}
+		p.cond.Wait()
+	}
+	p.idle--
+	// newest first keeps prefixes short-lived; oldest first spreads work. Use oldest.
+	t := p.queue[0]
+	p.queue = p.queue[1:]
+	return t
+}
+
+func (p *pool) stop() {
+	p.mu.Lock()
+	p.halt = true
+	p.queue = nil
+	p.mu.Unlock()
+	p.cond.Broadcast()
+}
+
+func (p *pool) stopped() bool {
+	p.mu.Lock()
+	defer p.mu.Unlock()
+	return p.halt
 }
 
 // sample keeps a few completed paths (decision vector + model) for the evidence.
